@@ -74,6 +74,10 @@ def _attr_value(rng, name):
     raise ValueError(name)
 
 
+class _Frozen(Exception):
+    """An operation of the history cannot go on: reported already."""
+
+
 SHARED_KINDS = ["td_system", "control", "bath_two_dt", "gibbs_pair",
                 "pt_in_tebd", "parameters", "chain_control", "param_table",
                 "open_params", "guess_parameters", "td_interleaved",
@@ -117,7 +121,8 @@ def gen_case(rng, tier="quick"):
         if k == "shared":
             # long-lived shared objects used again with other arguments
             ops.append(["shared", _pick(rng, shared_kinds),
-                        rng.randrange(3), rng.randrange(1, 4)])
+                        rng.randrange(3), rng.randrange(1, 4),
+                        rng.randrange(6)])
             continue
         if k == "new_corr":
             kind, vals = gen_corr(rng)
@@ -506,6 +511,20 @@ def _run_case(case, dec, pristine):
     def pars(steps):
         return oqupy.TempoParameters(dt=0.1, epsrel=EPSREL, dkmax=2)
 
+    def overwrite(arr, value, what):
+        """The caller re-uses an array of its own after handing it to the
+        library; if the library made that very array read-only, the caller's
+        program dies here - that is the library's doing, not the caller's."""
+        try:
+            arr[...] = value
+        except ValueError as e:
+            viol("caller_array_modified", "%s/flags" % what,
+                 "an array handed to %s can no longer be written by its "
+                 "owner afterwards (%s): the library changed the flags of "
+                 "the caller's array instead of its own copy" % (
+                     what, str(e)[:60]), call=what, array="flags")
+            raise _Frozen() from None
+
     def fresh_bath(b):
         return oqupy.Bath(COUPLINGS[b["coupling"]](o),
                           make_corr(b["kind"], b["vals"]))
@@ -831,7 +850,7 @@ def _run_case(case, dec, pristine):
                     arr = layout(0.7 * o["x"] + 0.2 * o["z"], op[2] if op[2]
                                  not in ("readonly", "f_readonly") else "c")
                     s = oqupy.System(arr)
-                    arr[...] = 5.0          # the caller re-uses their array
+                    overwrite(arr, 5.0, "System()")  # array re-used
                     got = s.liouvillian()
                     want = oqupy.System(
                         0.7 * o["x"] + 0.2 * o["z"]).liouvillian()
@@ -840,7 +859,7 @@ def _run_case(case, dec, pristine):
                         "readonly", "f_readonly") else "c")
                     corr = oqupy.PowerLawSD(0.2, 1.0, 3.0)
                     b = oqupy.Bath(arr, corr)
-                    arr[...] = 5.0
+                    overwrite(arr, 5.0, "Bath()")
                     got = b.coupling_operator
                     want = oqupy.Bath(0.5 * o["z"], corr).coupling_operator
                 elif which in ("pt_tensor", "pt_edit"):
@@ -876,7 +895,7 @@ def _run_case(case, dec, pristine):
                         bufs = []
                         pt = build(t1, bufs)
                         for b_ in bufs:
-                            b_[...] = 7.0       # caller re-uses its buffers
+                            overwrite(b_, 7.0, "set_mpo_tensor")
                         got = use(pt)
                         want = use(build(t1))
                     else:
@@ -890,7 +909,7 @@ def _run_case(case, dec, pristine):
                 elif which == "mps":
                     arr = layout(o["up"], "c")
                     mps = oqupy.AugmentedMPS([arr, arr])
-                    arr[...] = 5.0
+                    overwrite(arr, 5.0, "AugmentedMPS()")
                     got = np.array(mps.gammas[0]).ravel()
                     want = np.array(oqupy.AugmentedMPS(
                         [o["up"], o["up"]]).gammas[0]).ravel()
@@ -898,7 +917,7 @@ def _run_case(case, dec, pristine):
                     arr = layout(o["x"], "c")
                     s2 = oqupy.System(0.1 * o["z"], gammas=[0.3],
                                       lindblad_operators=[arr])
-                    arr[...] = 5.0
+                    overwrite(arr, 5.0, "System(lindblad_operators)")
                     got = s2.liouvillian()
                     want = oqupy.System(0.1 * o["z"], gammas=[0.3],
                                         lindblad_operators=[o["x"]]
@@ -913,6 +932,11 @@ def _run_case(case, dec, pristine):
                              which, err), holder=which)
             elif k == "shared":
                 what, dti, steps = op[1], op[2], op[3]
+                # a third, independent source of variation (start times,
+                # orders, memory lengths): arguments that always changed
+                # together with dt would hide a memo keyed by dt alone
+                var = op[4] if len(op) > 4 else 0
+                t0 = [0.0, 0.1, 0.3][var % 3]
                 dt = [0.05, 0.1, 0.2][dti]
                 tol = 1e-10
 
@@ -932,7 +956,7 @@ def _run_case(case, dec, pristine):
                     def run(sy):
                         return oqupy.compute_dynamics(
                             sy, RHO0, dt=dt, num_steps=steps,
-                            start_time=0.1 * dti, subdiv_limit=None,
+                            start_time=t0, subdiv_limit=None,
                             progress_type="silent").states
                     got, want = run(mk_shared("td", mk)), run(mk())
                 elif what == "param_system_two_dt":
@@ -1028,7 +1052,8 @@ def _run_case(case, dec, pristine):
                     need_bath()
                     b = baths[0]
                     tol = TOL_T
-                    dts = (dt, [0.05, 0.1, 0.2][(dti + 1) % 3])
+                    dts = (dt, dt if var >= 3 else
+                           [0.05, 0.1, 0.2][(dti + 1) % 3])
 
                     def mk():
                         return oqupy.TimeDependentSystem(
@@ -1071,7 +1096,7 @@ def _run_case(case, dec, pristine):
                     def run(c):
                         return oqupy.compute_dynamics(
                             oqupy.System(0.4 * o["x"]), RHO0, dt=dt,
-                            num_steps=steps + 1, control=c,
+                            num_steps=steps + 1, control=c, start_time=t0,
                             progress_type="silent").states
                     got, want = run(mk_shared("ctl", mk)), run(mk())
                 elif what == "bath_two_dt":
@@ -1080,12 +1105,13 @@ def _run_case(case, dec, pristine):
                     tol = TOL_T
 
                     def run(bath):
-                        tp = oqupy.TempoParameters(dt=dt, epsrel=EPSREL,
-                                                   dkmax=2)
+                        tp = oqupy.TempoParameters(
+                            dt=dt, epsrel=EPSREL,
+                            dkmax=[2, 3, None][(var // 3 + dti) % 3])
                         return oqupy.Tempo(
                             oqupy.System(0.5 * o["x"]), bath, tp, RHO0,
-                            0.0).compute((steps + 0.5) * dt,
-                                         progress_type="silent").states
+                            t0).compute(t0 + (steps + 0.5) * dt,
+                                        progress_type="silent").states
                     got, want = run(b["obj"]), run(fresh_bath(b))
                 elif what == "gibbs_pair":
                     def mkb():
@@ -1116,7 +1142,7 @@ def _run_case(case, dec, pristine):
                         t = oqupy.PtTebd(
                             oqupy.AugmentedMPS([RHO0, RHO0.T]), chain,
                             [pt, None], oqupy.PtTebdParameters(
-                                dt=0.1, order=2, epsrel=1e-10),
+                                dt=0.1, order=1 + var % 2, epsrel=1e-10),
                             dynamics_sites=[0, 1])
                         r = t.compute(min(steps, p0["steps"]),
                                       progress_type="silent")
@@ -1149,7 +1175,7 @@ def _run_case(case, dec, pristine):
                         t = oqupy.PtTebd(
                             oqupy.AugmentedMPS([RHO0, RHO0.T]), chain,
                             [None, None], oqupy.PtTebdParameters(
-                                dt=dt, order=1 + dti % 2, epsrel=1e-10),
+                                dt=dt, order=1 + var % 2, epsrel=1e-10),
                             chain_control=cc, dynamics_sites=[0, 1])
                         r = t.compute(steps + 1, progress_type="silent")
                         return np.concatenate(
@@ -1173,7 +1199,9 @@ def _run_case(case, dec, pristine):
                             [[1.0 + 0.1 * i, 0.4 - 0.05 * i]
                              for i in range(2 * n)])
                     table = shared_objs[key]
-                    table *= 1.0 + 0.1 * (dti + 1)      # caller's update
+                    # the caller's update of its own table
+                    overwrite(table, table * (1.0 + 0.1 * (dti + 1)),
+                              "state_gradient(parameters)")
                     table[::2, 1] += 0.05 * steps
                     tol = 1e-7
 
@@ -1337,10 +1365,12 @@ def _run_case(case, dec, pristine):
                 def consume_system(sy):
                     if api == "dynamics":
                         return oqupy.compute_dynamics(
-                            sy, RHO0, dt=dt, num_steps=steps, start_time=0.3,
+                            sy, RHO0, dt=dt, num_steps=steps,
+                            start_time=[0.3, 0.0, 0.7][(steps + dti) % 3],
                             progress_type="silent").states
                     if api == "propagators":
-                        a1, a2 = sy.get_propagators(dt, 0.0, None, 1e-8)(1)
+                        a1, a2 = sy.get_propagators(
+                            dt, [0.0, 0.4][steps % 2], None, 1e-8)(1)
                         return np.concatenate([a1.ravel(), a2.ravel()])
                     if api == "dynamics_pt":
                         need_pt()
@@ -1366,6 +1396,9 @@ def _run_case(case, dec, pristine):
                              err, api, dt), holder="System", call=api)
         except InjectedFault:
             raise
+        except _Frozen:
+            log.ev("frozen", k)
+            continue
     # a few of the in-process references again, from a process that has not
     # run this history: earlier computations must not have influenced them
     picks = spot[-3:] if len(spot) > 3 else spot
